@@ -171,6 +171,11 @@ pub trait OperationStore<T, ID>: Transaction {
         ensures
             final(self).in_tx(), final(self).committed() == old(self).committed(), final(self).txview() == old(self).txview(),
             r is Ok ==> r->Ok_0 == t_ops::<T, ID>(old(self).txview()).contains_key(*id);
+    fn get_operation_tx(&mut self, id: &ID) -> (r: Result<Option<T>, Self::OpError>)
+        requires old(self).in_tx(),
+        ensures
+            final(self).in_tx(), final(self).committed() == old(self).committed(), final(self).txview() == old(self).txview(),
+            r is Ok ==> r->Ok_0 == (if t_ops::<T, ID>(old(self).txview()).contains_key(*id) { Some(t_ops::<T, ID>(old(self).txview())[*id]) } else { None::<T> });
     fn insert_operation<L: LogId>(&mut self, id: &ID, operation: &T, collection_id: &L) -> (r: Result<bool, Self::OpError>)
         requires old(self).in_tx(),
         ensures
